@@ -1071,7 +1071,7 @@ class UnknownNode:
                             ('Incorrect attribute type where value {}'
                              ' of type {} was required').format(
                                 value, type(value)))
-                if node.get_value() != value:
+                if self.__value_of(node) != value:
                     raise RecognitionError((
                         'Incorrect attribute value {} where {} was required'
                             ).format(value_node.value, value))
@@ -1079,6 +1079,19 @@ class UnknownNode:
         if not found:
             raise RecognitionError(
                     'Required key "{}" not found'.format(attribute))
+
+    def __value_of(self, node: Node) -> ScalarType:
+        """Returns the value of a scalar node.
+
+        Raises:
+            yatiml.RecognitionError: If the text of the node is not
+                    valid for its tag, e.g. ``!!int abc``.
+        """
+        try:
+            return node.get_value()
+        except (ValueError, KeyError, IndexError) as e:
+            raise RecognitionError(
+                    'Invalid value {}: {}'.format(node.yaml_node.value, e))
 
     def require_attribute_value_not(
             self, attribute: str,
@@ -1106,7 +1119,7 @@ class UnknownNode:
                 node = Node(value_node)
                 if not node.is_scalar(type(value)):
                     return
-                if node.get_value() == value:
+                if self.__value_of(node) == value:
                     raise RecognitionError(
                             (
                                 'Incorrect attribute value {} where {} was not'
